@@ -117,12 +117,42 @@ def after(prop, tier, seed):
         lacking = [n for n in need if n not in have]
         if lacking:
             res["engine_error"] = "kernel families missing from the asm build: %s" % lacking
+    extra_sources = []
+    try:
+        import ctsan
+        extra_sources.append(ctsan.after(prop, tier, seed))
+    except ImportError:
+        pass
+    for fz in extra_sources:
+        for k, val in fz.items():
+            if k == "coverage":
+                c = res.setdefault("coverage", {})
+                for kk, vv in val.items():
+                    if kk in ("evaluations", "distinct_nontrivial"):
+                        c[kk] = c.get(kk, 0) + vv
+                    elif kk == "rule" and "rule" in c:
+                        c["rule"] += " || " + vv
+                    else:
+                        c[kk] = vv
+            elif k in ("violations", "known", "assumptions"):
+                res.setdefault(k, []).extend(val)
+            elif k == "engine_error" and val:
+                res["engine_error"] = (res.get("engine_error", "") + "; " + val).strip("; ")
     try:
         import fuzzers
         fz = fuzzers.after(prop, tier, seed)
         for k, val in fz.items():
             if k == "coverage":
-                res.setdefault("coverage", {}).update(val)
+                c = res.setdefault("coverage", {})
+                for kk, vv in val.items():
+                    if kk in ("evaluations", "distinct_nontrivial"):
+                        c[kk] = c.get(kk, 0) + vv
+                    elif kk == "rule" and "rule" in c:
+                        c["rule"] += " || " + vv
+                    elif kk == "samples" and "samples" in c:
+                        c["samples"] = c["samples"] + vv
+                    else:
+                        c[kk] = vv
             elif k in ("violations", "known", "assumptions"):
                 res.setdefault(k, []).extend(val)
             elif k == "engine_error" and val:
@@ -133,6 +163,13 @@ def after(prop, tier, seed):
 
 
 def replay(prop, path):
+    try:
+        import ctsan
+        r = ctsan.replay(prop, path)
+        if r is not None:
+            return r
+    except ImportError:
+        pass
     try:
         import fuzzers
         return fuzzers.replay(prop, path)
